@@ -215,10 +215,25 @@ def real_serde_outcomes():
         c["dfc"] = "snake_case"
         cases.append(c)
         seen.append(real["extra"][k])
+    # non-ASCII identifiers under the rules of the widened domain (types compiled into the harness)
+    uni_items = {
+        "s": plain(["größe_x", "naïve_été", "x_ß", "a_名前"]) + [{"ident": "r_ü", "attrs": [[["rename", "ü-named"]]]}, {"ident": "s_é", "attrs": [[["skip"]]]}],
+        "h": plain(["名前", "été_x", "_ö_b"]),
+        "e": plain(["Été", "Naïve", "Größe", "A名", "Snake_Ünder"]),
+        "n": plain(["größe_x", "名前"]),
+    }
+    for key, names in sorted(real.get("uni", {}).items()):
+        tag, rule = key.split(":", 1)
+        items = uni_items[tag]
+        if key == "e:camelCase":
+            items = plain(["Naïve", "Größe", "A名"])
+        cases.append({"kind": "enum" if tag == "e" else "struct", "cattrs": [[["ra", rule]]] if rule else [], "items": items,
+                      "dfc": "snake_case", "uni": True})
+        seen.append(names)
     res = vlib.run_runner("c06-eval", [sx(["snake_case", container_sx(c), [n]]) for c, n in zip(cases, seen)], shards=1)
     outs = []
     for c, n, m in zip(cases, seen, res):
-        agrees = m[4][0] == "true"
+        agrees = m[4][0] == "true" and (not c.get("uni") or m[1] == "true")     # the non-ASCII types must lie inside the domain
         outs.append(Outcome(c, agrees, True, None, {"real_serde": n, "spec": list(m[3]), "note": "specification vs real serde_derive"}, True))
     return outs
 
@@ -370,6 +385,7 @@ def run_streams(rep):
         ("spellings", gen.spellings()),
         ("types", gen.typed_fields()),
         ("gated", gen.gated_cases()),
+        ("unicode", gen.unicode_cases()),
         ("exhaustive", gen.exhaustive(thorough)),
         ("random", gen.random_cases(rng, 60000 if thorough else 4000)),
         ("config", gen.config_cases(rng, 2000 if thorough else 300)),
